@@ -157,6 +157,9 @@ def run(rep: Report) -> None:
     rep.rule("R18.10", "a copy/pickle hook on Logarithm / LogarithmicUnit passes every argument its __new__ interns under (otherwise the copy lands on "
              "another interned object, e.g. Bel for a decibel, and overwrites it)", floor=2)
     rep.rule("R18.13", "ROOT_POWER_DIMENSIONS is written nowhere but in its literal (k must not depend on import history)", floor=1)
+    rep.rule("R20.9", "lazy initialisation on a (shared, interned) logarithm or logarithmic unit publishes its guard attribute last - shared with C20", floor=1)
+    from .c20 import lazy_publication
+    lazy_publication(rep, prog, "R20.9", ("Logarithm", "LogarithmicUnit"))
     rep.rule("R18.9", "ROOT_POWER_DIMENSIONS has no entry written twice", floor=1)
     rep.rule("R18.8", "membership of the reference's dimension in ROOT_POWER_DIMENSIONS cannot go stale: interned classes hash by identity or over "
              "fields nothing assigns after construction (shared with C02 R02.11)", floor=5)
